@@ -48,7 +48,7 @@ def run(tier):
     n = common.NCPU
     span = 2**32 // n
     env['ASAN_OPTIONS'] = env['ASAN_OPTIONS'] + ':halt_on_error=0'      # every site is reported, the sweep goes on
-    jobs = [['instants', str(-2**31 + i * span), str(-2**31 + (i + 1) * span if i < n - 1 else 2**31), str(stride)] for i in range(n)] + [['components'], ['anyarg', 'valid'], ['anyarg', 'invalid']]
+    jobs = [['instants', str(-2**31 + i * span), str(-2**31 + (i + 1) * span if i < n - 1 else 2**31), str(stride)] for i in range(n)] + [['components'], ['anyarg', 'valid'], ['anyarg', 'invalid'], ['lookups']]
 
     def vrun(args):
         rc, out_, err, _ = common.run_cmd([vs] + args, env=env, timeout=7000)
